@@ -3,11 +3,11 @@ package main
 // C04 — each client handshake accepted once, within ±1 hour (DESIGN 4, C04).
 
 import (
-	"strings"
 	"fmt"
 	"go/token"
 	"go/types"
 	"sort"
+	"strings"
 
 	"golang.org/x/tools/go/ssa"
 )
